@@ -329,14 +329,14 @@ Proof.
 Qed.
 
 (* the deadline list is as long as the channel *)
-Definition dl_sync (fa : fair_aux) (st : net) : Prop :=
+Definition dl_len_sync (fa : fair_aux) (st : net) : Prop :=
   forall x, length (fa_dl fa x) = length (chan_to st x).
 
-Lemma fa_init_sync Dt Da st : dl_sync (fa_init Dt Da st) st.
+Lemma fa_init_len_sync Dt Da st : dl_len_sync (fa_init Dt Da st) st.
 Proof. intros x. cbn. apply repeat_length. Qed.
 
-Lemma fa_after_sync Dt Da fa st ev st' :
-  dl_sync fa st -> fair_ev fa st ev -> net_step st ev = Ok st' -> dl_sync (fa_after Dt Da fa ev st') st'.
+Lemma fa_after_len_sync Dt Da fa st ev st' :
+  dl_len_sync fa st -> fair_ev fa st ev -> net_step st ev = Ok st' -> dl_len_sync (fa_after Dt Da fa ev st') st'.
 Proof.
   intros Hs Hf H x. cbn [fa_after fa_dl]. apply pad_dl_length.
   destruct (fair_step_chan _ _ _ _ x Hf H) as (l & -> & _). rewrite app_length.
@@ -373,8 +373,8 @@ Proof.
 Qed.
 
 (* a segment emitted in this step gets a deadline Dt ahead *)
-Lemma fa_after_dl_new Dt Da fa st ev st' x i :
-  dl_sync fa st -> (length (chan_to st x) <= i < length (chan_to st' x))%nat ->
+Lemma fa_after_dl_new_len Dt Da fa st ev st' x i :
+  dl_len_sync fa st -> (length (chan_to st x) <= i < length (chan_to st' x))%nat ->
   nth_error (fa_dl (fa_after Dt Da fa ev st') x) i = Some (Some (net_now st' x + Dt)).
 Proof.
   intros Hs (H1 & H2). cbn [fa_after fa_dl]. unfold pad_dl.
@@ -494,3 +494,51 @@ Proof.
       split; [reflexivity|]. split; [cbn [net_run]; rewrite Hs; exact Hp1|].
       split; [exact Hp2|]. split; [exact HR2|]. split; [exact Hf|]. split; [exact HQ | exact Hlast].
 Qed.
+
+(* ---------------------------------------------------------------------------------------- *)
+(* application-read deadlines                                                                *)
+(* ---------------------------------------------------------------------------------------- *)
+(* the read deadline exists exactly while the receive buffer is non-empty, and is at most Da ahead *)
+Definition rd_sync (Da : Z) (fa : fair_aux) (st : net) : Prop :=
+  forall x, match fa_rd fa x with
+            | Some t => rx_len st x <> 0 /\ t <= net_now st x + Da
+            | None => rx_len st x = 0
+            end.
+
+Lemma fa_init_rd Dt Da st : rd_sync Da (fa_init Dt Da st) st.
+Proof.
+  intros x. cbn [fa_init fa_rd]. destruct (Z.eqb_spec (rx_len st x) 0) as [E | E]; [exact E | split; [exact E | lia]].
+Qed.
+
+Lemma fa_after_rd Dt Da fa st ev st' :
+  rd_sync Da fa st -> net_step st ev = Ok st' -> rd_sync Da (fa_after Dt Da fa ev st') st'.
+Proof.
+  intros Hs H x. specialize (Hs x). cbn [fa_after fa_rd].
+  pose proof (net_step_now_mono _ _ _ x H) as Hm.
+  destruct (Z.eqb_spec (rx_len st' x) 0) as [E | E]; [exact E|].
+  assert (Hkeep : match match fa_rd fa x with Some t => Some t | None => Some (net_now st' x + Da) end with
+                  | Some t => rx_len st' x <> 0 /\ t <= net_now st' x + Da
+                  | None => rx_len st' x = 0
+                  end).
+  { destruct (fa_rd fa x) as [t|]; [destruct Hs as (_ & Ht); split; [exact E | lia] | split; [exact E | lia]]. }
+  destruct ev; try exact Hkeep.
+  destruct (side_eqb x0 x && (0 <? n)); [split; [exact E | lia] | exact Hkeep].
+Qed.
+
+(* the bookkeeping is in step with the system state: one delivery deadline per in-flight segment,
+   a read deadline exactly while the receive buffer is non-empty *)
+Definition dl_sync (Da : Z) (fa : fair_aux) (st : net) : Prop := dl_len_sync fa st /\ rd_sync Da fa st.
+
+Lemma fa_init_sync Dt Da st : dl_sync Da (fa_init Dt Da st) st.
+Proof. split; [apply fa_init_len_sync | apply fa_init_rd]. Qed.
+
+Lemma fa_after_sync Dt Da fa st ev st' :
+  dl_sync Da fa st -> fair_ev fa st ev -> net_step st ev = Ok st' -> dl_sync Da (fa_after Dt Da fa ev st') st'.
+Proof.
+  intros (H1 & H2) Hfe H. split; [exact (fa_after_len_sync Dt Da _ _ _ _ H1 Hfe H) | exact (fa_after_rd Dt Da _ _ _ _ H2 H)].
+Qed.
+
+Lemma fa_after_dl_new Dt Da fa st ev st' x i :
+  dl_sync Da fa st -> (length (chan_to st x) <= i < length (chan_to st' x))%nat ->
+  nth_error (fa_dl (fa_after Dt Da fa ev st') x) i = Some (Some (net_now st' x + Dt)).
+Proof. intros (H1 & _). apply fa_after_dl_new_len. exact H1. Qed.
